@@ -37,6 +37,31 @@ def frame(src, dst, seq, key, corrupt=None):
     return bytes(raw)
 
 
+LOOP = None
+
+
+def bare_xknx():
+    """an XKNX whose interface is a stand-in; the CEMI handler and Data Secure are the real ones"""
+    global LOOP
+    from unittest.mock import AsyncMock, Mock, patch
+
+    from xknx import XKNX
+    from xknx.telegram import IndividualAddress
+
+    if LOOP is None:
+        import asyncio
+
+        LOOP = asyncio.new_event_loop()
+    m = Mock()
+    m.start = AsyncMock()
+    m.stop = AsyncMock()
+    with patch("xknx.xknx.knx_interface_factory", return_value=m):
+        xk = XKNX()
+    xk.knxip_interface = m
+    xk.current_address = IndividualAddress("5.0.1")
+    return xk
+
+
 def run_hist(seed, n):
     from xknx.cemi import CEMIFrame
     from xknx.exceptions import DataSecureError
@@ -52,6 +77,8 @@ def run_hist(seed, n):
     ds = DataSecure(group_key_table={GroupAddress("0/4/0"): KEY},
                     individual_address_table={IndividualAddress(s): v for s, v in zip(SENDERS, init)},
                     last_sequence_number_sending=sent0)
+    xk = bare_xknx()
+    xk.cemi_handler.data_secure = ds
     ev, old = [], []
     for _ in range(n):
         r = rnd.random()
@@ -85,21 +112,45 @@ def run_hist(seed, n):
             lv = -1 if s == 0 else rank[ds._individual_address_table[IndividualAddress(SENDERS[si])]]
             ev.append({"ev": "recv", "s": s, "n": rank[seq], "ok": ok, "delivered": d, "lv": lv, "kind": kind, "res": "", "seq": str(seq)})
         else:
-            from xknx.cemi import CEMILData
             from xknx.dpt import DPTBinary
+            from xknx.exceptions import CommunicationError, ConversionError
             from xknx.telegram import Telegram
             from xknx.telegram.apci import GroupValueWrite
 
-            data = CEMILData.init_from_telegram(Telegram(GroupAddress("0/4/0"), payload=GroupValueWrite(DPTBinary(1))),
-                                                src_addr=IndividualAddress("5.0.1"))
+            # the whole sending path: CEMIHandler.send_telegram secures the frame and hands it to the interface, which may fail
+            # before the frame leaves ("down"), after it left ("lostack": the tunnel got no acknowledgement) or not at all
+            fault = rnd.choices(["none", "lostack", "down", "conv"], weights=[6, 2, 1, 1])[0]
+            wire = []
+
+            async def send_cemi(cemi, fault=fault, wire=wire):
+                if fault == "down":
+                    raise CommunicationError("not connected")
+                if fault == "conv":
+                    raise ConversionError("cannot serialise")
+                wire.append(cemi)
+                if fault == "lostack":
+                    raise CommunicationError("no acknowledgement")
+                xk.cemi_handler._l_data_confirmation_event.set()
+
+            xk.knxip_interface.send_cemi = send_cemi
             try:
-                out = ds.outgoing_cemi(data)
-                num = int.from_bytes(out.payload.secured_data.sequence_number_bytes, "big")
-                ev.append({"ev": "send", "n": rank.get(num, len(universe) + 1), "res": "ok", "s": 0, "ok": 0, "delivered": 0, "lv": 0, "seq": str(num)})
+                LOOP.run_until_complete(xk.cemi_handler.send_telegram(Telegram(GroupAddress("0/4/0"), payload=GroupValueWrite(DPTBinary(1)))))
+                res = "ok"
+            except (CommunicationError, ConversionError):
+                res = "ok" if wire else "notsent"
             except DataSecureError:
-                ev.append({"ev": "send", "n": -1, "res": "error", "s": 0, "ok": 0, "delivered": 0, "lv": 0})
+                res = "error"
             except Exception as ex:  # noqa: BLE001 - e.g. OverflowError when a number above 48 bits is packed
-                ev.append({"ev": "send", "n": -1, "res": "crash:" + type(ex).__name__, "s": 0, "ok": 0, "delivered": 0, "lv": 0})
+                res = "crash:" + type(ex).__name__
+            if wire and res == "error":
+                res = "crash:sent-and-error"
+            if res == "ok" and wire:
+                num = int.from_bytes(wire[0].data.payload.secured_data.sequence_number_bytes, "big") if hasattr(wire[0].data.payload, "secured_data") else -5
+                ev.append({"ev": "send", "n": rank.get(num, len(universe) + 1), "res": "ok", "s": 0, "ok": 0, "delivered": 0, "lv": 0, "seq": str(num), "fault": fault})
+            elif res == "notsent":           # nothing left the instance (the counter may or may not have moved on)
+                ev.append({"ev": "send", "n": -1, "res": "notsent", "s": 0, "ok": 0, "delivered": 0, "lv": 0, "fault": fault})
+            else:
+                ev.append({"ev": "send", "n": -1, "res": res, "s": 0, "ok": 0, "delivered": 0, "lv": 0, "fault": fault})
     # lastSent before the first send: the number below sent0
     return {"init": [rank[v] for v in init], "max": rank[MAX48], "sent0": rank[sent0 - 1] if sent0 - 1 in rank else rank[sent0] - 1, "ev": ev}
 
